@@ -89,6 +89,11 @@ func (s *Server) handleConnection(conn net.Conn) {
 		}
 	}
 
+	// the reply has to fit into one message part of the protocol ("OK"/"NO" + " " + message): clients,
+	// including our own, refuse parts longer than MaxRequestLength and parts over 64KiB can't be encoded at all
+	if len(resp.Message) > MaxRequestLength-3 {
+		resp.Message = resp.Message[:MaxRequestLength-3]
+	}
 	resp.Encode(conn) //nolint:errcheck
 }
 
